@@ -302,7 +302,7 @@ func TestFidRef(t *testing.T) {
 					keep := s
 					s = so
 					for _, f := range []int{1, 2} {
-						so.do([]any{"attach", f, fc.NOFID, "accept", "dir", 1})
+						so.do([]any{"attach", f, fc.NOFID, "accept", "dir", otherUser(fc)})
 					}
 					s = keep
 				}
@@ -322,7 +322,7 @@ func TestFidRef(t *testing.T) {
 					for _, f := range []int{1, 2} {
 						o := so.do([]any{"stat", f, "ok"})
 						fw, _ := o["fwd"].([][]any)
-						if o["reply"] != "ok" || len(fw) != 1 || fw[0][3] != 1 {
+						if o["reply"] != "ok" || len(fw) != 1 || fw[0][3] != otherUser(fc) {
 							rep.Violations = append(rep.Violations, Violation{Key: "c04:other-connection-fid-disturbed",
 								What: fmt.Sprintf("fid %d of a second connection after history %d: %v", f, b.ID, o), Replay: b})
 						}
@@ -353,6 +353,14 @@ func TestFidRef(t *testing.T) {
 	if err := rep.Write(); err != nil {
 		t.Fatal(err)
 	}
+}
+
+// otherUser: the user the second connection attaches as (9P2000 without .u can only name user 0 here).
+func otherUser(fc FidCfg) int {
+	if fc.Dotu {
+		return 1
+	}
+	return 0
 }
 
 // twoUsers: a Users pool knowing uid 0 and 1 by number and by name ("u0", "u1", "u").
